@@ -14,8 +14,10 @@ errors cancel in a sum -, one bad element at each position, duplicates, two elem
 (2..3 calls to the same component instances that carry the same signature bytes: the valid object, one signed field
 changed, another duty type, another kind's object, exact replays, in every order) and FORK SEQUENCES (2..3 calls to the
 same component instances whose fresh objects lie in different fork versions, in ascending and descending order of
-their epochs: an implementation that remembers a signing domain from an earlier call shows here).  Every schedule runs
-against component instances of its own."""
+their epochs: an implementation that remembers a signing domain from an earlier call shows here) and LARGE PEER SETS (one
+peer message with the partial signatures of 5 / 8 / 12 / 24 validators: all valid, one bad entry, two bad entries; each
+message is delivered 6 times to fresh instances, one trace per delivery, because which entries a handler looks at first
+is Go map order).  Every schedule runs against component instances of its own."""
 import json, os
 from concurrent.futures import ThreadPoolExecutor
 import vlib
@@ -41,7 +43,10 @@ RULE = ("cases = path (validator-API endpoint | peer message) x object kind (12)
         "both paths, fresh objects placed in different fork versions: valid object wholly in the later fork, the same signed "
         "with the earlier fork version, plain object in the earlier fork, the same signed with the later fork version, the "
         "fork-straddling objects - all ordered pairs of different members, i.e. ascending and descending epochs, and the "
-        "alternating triples a-b-a / b-a-b), "
+        "alternating triples a-b-a / b-a-b) "
+        "x LARGE PEER SETS (one peer message of every kind with the entries of K = 5, 8, 12, 24 validators, V=24 in the lock: "
+        "all valid, one bad entry (other share / other validator's share / content changed / validator not in the lock) at the "
+        "first or last validator, two bad entries; 6 deliveries each to fresh instances), "
         "ENUMERATED by TLC from specs/Admission (N=4 shares, V=3 validators); every schedule gets fresh component instances; the "
         "executor signs from the model's own tables (domain name and epoch source per type, carried in the schedule); "
         "quick: stratified - at least one case of every (path, kind, alteration, argument) class, every data version for "
@@ -65,6 +70,9 @@ ASSUMPTIONS = [
     "an unaltered submission (and a duty in the last allowed future epoch) must be admitted, otherwise the run would be vacuous; "
     "so must a batch of valid elements of different validators; an exact re-submission of an admitted element may or may not "
     "enter again, and of two elements of one validator in one validator-API request either may be the one handed on",
+    "large peer sets: the lock has 24 validators (trace configuration AdmissionTrace_big.cfg); which entries of a set a handler "
+    "looks at first is Go map order and scheduling, so each message is delivered 6 times to fresh instances and every delivery "
+    "is judged on its own - a handler that skips entries only rarely can still be missed",
     "the executor concretises 'same signing root' for the kinds whose signed content does not name the validator "
     "(attestation, sync message, selections, randao) and gives all calls of a sequence the same signature bytes",
 ]
@@ -79,6 +87,10 @@ CONTROLS = [("AdmissionMC_ctl_dropverify.cfg", "verifyPartialSig dropped from Su
             ("AdmissionMC_ctl_aggbatch.cfg", "SubmitSyncCommitteeMessages checks a request with one aggregate verification per signing root"),
             ("AdmissionMC_ctl_memo.cfg", "the peer verifier admits a remembered (public share, signature) pair without looking at the object"),
             ("AdmissionMC_ctl_domcache.cfg", "the validator API verifies under the signing domain it remembered from a later epoch")]
+# the large peer sets have an exhaustive configuration of their own (V=5): as coded, and the control
+BIG_MC = ("AdmissionMC_big.cfg", ("AdmissionMC_ctl_verifylimit.cfg", "parsigex.handle verifies only 4 entries of a peer set"))
+BIG_V = 24
+
 
 
 def design_check(o, thorough):
@@ -100,7 +112,24 @@ def design_check(o, thorough):
             o.selftests.append({"control": "spec variant '%s' violates OnlyValidEnter" % what, "rejected_as_required": True})
 
 
-GEN_CFGS = ("AdmissionGen.cfg", "AdmissionGen_batch.cfg", "AdmissionGen_seq.cfg", "AdmissionGen_fseq.cfg")
+def design_check_big(dirs):
+    """Tiny models (a few thousand states): one TLC worker each, off the critical path."""
+    r = vlib.tlc(PID, FAMILY, "AdmissionMC", BIG_MC[0], workers=1, timeout=600, sdir=dirs[0])
+    vlib.require_mc_ok(r, BIG_MC[0])
+    cfg, what = BIG_MC[1]
+    r2 = vlib.tlc(PID, FAMILY, "AdmissionMC", cfg, workers=1, timeout=600, sdir=dirs[1])
+    if r2.violation != "OnlyValidEnter":
+        raise vlib.Infra("design-spec control failed: '%s' not caught by OnlyValidEnter: %s" % (what, r2.summary()))
+    return r, {"control": "spec variant '%s' violates OnlyValidEnter" % what, "rejected_as_required": True}
+
+
+GEN_CFGS = ("AdmissionGen.cfg", "AdmissionGen_batch.cfg", "AdmissionGen_seq.cfg", "AdmissionGen_fseq.cfg", "AdmissionGen_big.cfg")
+
+
+def trace_cfg(t):
+    """Trace-spec configuration of a recorded trace: the large peer sets run with a larger lock."""
+    return "AdmissionTrace_big.cfg" if t and t[0].get("V") == BIG_V else "AdmissionTrace.cfg"
+
 
 
 def enumerate_cases(cfg, sdir):
@@ -129,6 +158,10 @@ def is_batch(s):
     return s[1]["ev"] == "SubmitBatch"
 
 
+def is_big(s):
+    return s[1]["ev"] == "SubmitBig"
+
+
 def submits(s):
     """The cases of the Submit steps of a schedule (or of a recorded trace)."""
     return [x["c"] for x in s[1:] if x.get("ev") == "Submit"]
@@ -155,6 +188,9 @@ def cls(s):
     handlers' epoch / root code is per version.  Batches: path, kind, pattern.  Sequences: path, origin kind, the calls'
     (kind, alteration, argument)."""
     c = s[1]["c"]
+    if is_big(s):
+        # large peer sets: K, the classes of the bad entries (position, kind and sender are drawn)
+        return ("big", c["ai"], tuple(sorted(b for b in c["bad"] if b)) if sum(1 for b in c["bad"] if b) < 2 else ("two",))
     if is_batch(s):
         q = c["pat"]
         return ("batch", c["path"], c["kind"], tuple(q["vs"]), tuple(q["cs"]), tuple(q["ss"]), tuple(q["bad"]))
@@ -180,7 +216,7 @@ def select(cases, seed, extra):
     for i, s in enumerate(cases):
         by.setdefault(cls(s), []).append(i)
     pick = {r.choice(v) for v in by.values()}
-    rest = [i for i in range(len(cases)) if i not in pick]
+    rest = [i for i in range(len(cases)) if i not in pick and not is_big(cases[i])]     # (6 deliveries each: no extras)
     r.shuffle(rest)
     pick |= set(rest[:extra])
     return [cases[i] for i in sorted(pick)], len(by)
@@ -226,6 +262,22 @@ def mutators():
         if t[1]["ev"] != "Submit" or len(cs) != 2 or len(t) != 7 or [c["alt"] for c, _ in cs] != ["laterFork", "none"] or not cs[1][1]:
             return None
         del t[5]
+        return t
+
+    def big_bad_set_delivered(t):
+        # large peer set with a bad entry: a valid entry of it is reported as delivered
+        c = t[1]["c"]
+        if t[1]["ev"] != "SubmitBig" or len(t) != 3 or c["bad"][1] != "":
+            return None
+        t.insert(2, {"ev": "Deliver", "k": 2, "val": 2, "idx": c["sender"], "dt": DUTY[c["kind"]]})
+        return t
+
+    def big_valid_set_short(t):
+        # all-valid large peer set: one of its entries is not delivered
+        c = t[1]["c"]
+        if t[1]["ev"] != "SubmitBig" or any(c["bad"]) or len(t) != 3 + c["ai"]:
+            return None
+        del t[4]
         return t
 
     def permuted_batch_admitted(t):
@@ -288,7 +340,9 @@ def mutators():
             t[2]["k"] = 0
             return t
         return None
-    return [("fork sequence: earlier-fork object signed with the later fork version reported as admitted", stale_fork_admitted),
+    return [("large peer set with a bad entry: a valid entry reported as delivered", big_bad_set_delivered),
+            ("large all-valid peer set: one entry not delivered", big_valid_set_short),
+            ("fork sequence: earlier-fork object signed with the later fork version reported as admitted", stale_fork_admitted),
             ("fork sequence: valid earlier-fork object after a later-fork one reported as refused", earlier_fork_refused),
             ("sequence: known signature on changed content reported as admitted", replayed_sig_admitted),
             ("batch: element carrying another element's signature reported as admitted", permuted_batch_admitted),
@@ -313,10 +367,15 @@ def run(tier, seed):
     thorough = tier == "thorough"
     # stage 0 (design check) and stage 1 (case enumeration, one TLC job per family) are independent TLC jobs
     gdirs = [vlib.scratch(PID, FAMILY) for _ in GEN_CFGS]
-    with ThreadPoolExecutor(max_workers=len(GEN_CFGS) + 1) as ex:
+    bdirs = [vlib.scratch(PID, FAMILY) for _ in range(2)]
+    with ThreadPoolExecutor(max_workers=len(GEN_CFGS) + 2) as ex:
         fg = [ex.submit(enumerate_cases, cfg, d) for cfg, d in zip(GEN_CFGS, gdirs)]
+        fb = ex.submit(design_check_big, bdirs)
         f0 = ex.submit(design_check, o, thorough)
         f0.result()
+        rbig, cbig = fb.result()
+        o.add_mc(BIG_MC[0][:-4], rbig)
+        o.selftests.append(cbig)
         gens = [f.result() for f in fg]
     cases = [s for g, _ in gens for s in g]
     nfam = [len(g) for g, _ in gens]
@@ -326,9 +385,10 @@ def run(tier, seed):
         scheds, nclasses = cases, len({cls(s) for s in cases})
     else:
         scheds, nclasses = select(cases, seed, 800)
-    log("[%s] %d schedules enumerated by TLC (%d single-element cases, %d batches, %d sequences, %d fork sequences; %.1fs), "
-        "%d classes, %d selected" % (PID, len(cases), nfam[0], nfam[1], nfam[2], nfam[3], max(r.wall for _, r in gens),
-                                     nclasses, len(scheds)))
+    log("[%s] %d schedules enumerated by TLC (%d single-element cases, %d batches, %d sequences, %d fork sequences, %d large "
+        "peer sets; %.1fs), %d classes, %d selected (%d large peer sets)"
+        % (PID, len(cases), nfam[0], nfam[1], nfam[2], nfam[3], nfam[4], max(r.wall for _, r in gens), nclasses, len(scheds),
+           sum(1 for s in scheds if is_big(s))))
     # every (path, kind) with an epoch-dependent domain is run through a fork sequence in both orders of epochs
     want = {(s[1]["c"]["path"], s[1]["c"]["kind"], o) for s in cases for o in ("asc", "desc") if is_fseq(s)}
     have = {(s[1]["c"]["path"], s[1]["c"]["kind"], fork_order(s)) for s in scheds}
@@ -339,8 +399,7 @@ def run(tier, seed):
     vlib.run_schedules(PID, PKG, "TestExec", scheds[:1], tag="probe")
     check_anomalies("probe")
     # stage 2+3
-    vlib.conformance(o, FAMILY, "AdmissionTrace", "AdmissionTrace.cfg", PKG, scheds, tag="cases", key=lambda t: t[1:],
-                     chunk=400)
+    vlib.conformance(o, FAMILY, "AdmissionTrace", trace_cfg, PKG, scheds, tag="cases", key=lambda t: t[1:], chunk=400)
     check_anomalies("cases")
     check_anomalies("cases_re")
     tr = vlib.split_traces(vlib.read_ndjson(vlib.workdir(PID) + "/trace_cases.ndjson"))
@@ -375,9 +434,18 @@ def run(tier, seed):
                 fs[(o2, "refused")] = fs.get((o2, "refused"), 0) + 1
         if len(fs) < 4:
             raise vlib.Infra("vacuous run: fork sequences after an admitted first call: %s" % fs)
+        # large peer sets: all-valid ones delivered entirely, ones with a bad entry refused, every K
+        bg = {}
+        for t in tr:
+            if t[1]["ev"] == "SubmitBig":
+                nd, nbad = sum(1 for e in t if e["ev"] == "Deliver"), sum(1 for b in t[1]["c"]["bad"] if b)
+                key = (t[1]["c"]["ai"], "all" if nbad == 0 and nd == t[1]["c"]["ai"] else "none" if nbad and nd == 0 else "?")
+                bg[key] = bg.get(key, 0) + 1
+        if len([k for k in bg if k[1] != "?"]) < 8:
+            raise vlib.Infra("vacuous run: large peer sets (K, delivered): %s" % bg)
     n0 = len(o.selftests)
-    vlib.binding_selftest(o, FAMILY, "AdmissionTrace", "AdmissionTrace.cfg", tr, mutators())
-    if len(o.selftests) - n0 < 11 and not o.violations:
+    vlib.binding_selftest(o, FAMILY, "AdmissionTrace", trace_cfg, tr, mutators())
+    if len(o.selftests) - n0 < 13 and not o.violations:
         raise vlib.Infra("binding self-test: some negative control found no applicable trace")
     # the same rule on REAL, fully wired nodes: clusters of real app.Run nodes (specs/Workflow, harness/workflow) with a
     # Byzantine member whose validator client signs with a foreign key / other data and who puts crafted partial signatures
@@ -391,7 +459,8 @@ def run(tier, seed):
                                   controls=("unverified partial stored internally", "unverifiable partial accepted from a peer"))
     return vlib.finish(o, "exploration", RULE, ASSUMPTIONS,
                        extra_cov={"cases_enumerated_by_tlc": len(cases), "single_element_cases": nfam[0], "batches": nfam[1],
-                                  "sequences": nfam[2], "fork_sequences": nfam[3], "case_classes": nclasses,
+                                  "sequences": nfam[2], "fork_sequences": nfam[3], "large_peer_sets": nfam[4],
+                                  "case_classes": nclasses,
                                   "cases_admitted": admitted, "cases_refused": len(tr) - admitted,
                                   "exhaustive": bool(thorough and not o.violations)})
 
@@ -399,7 +468,7 @@ def run(tier, seed):
 def replay(path):
     rp = json.load(open(path))
     o = vlib.Outcome(PID, "quick", 0)
-    vlib.conformance(o, FAMILY, rp["trace_module"], rp["trace_cfg"], rp["pkg"], [rp["schedule"]], tag="replay")
+    vlib.conformance(o, FAMILY, rp["trace_module"], trace_cfg, rp["pkg"], [rp["schedule"]], tag="replay")
     check_anomalies("replay")
     for p, t in o.violations:
         log("replay: " + t)
